@@ -77,3 +77,8 @@ CHECKS["C07"] = ("exploration",
   "Sequences of populations with ties, duplicates, signed zeros, +inf and extreme objectives are fed to the best-individual update (component and direct) and to the elitist archive for every capacity 0-7, then re-inserted into populations that already contain some elitists; every template is run with an objective that records the minimum it ever returned: the reported best must equal it and must never get worse at any best-update step (tracked per scope).",
   "Known finding: real_fa evaluates unrepaired positions inside the firefly update that never reach the best update (suppressed only when the run minimum was returned for a position outside the domain).",
   "DESIGN.md §6 C07")
+CHECKS["C18"] = ("exploration",
+  "proptest over real_pso runs audited at every component step through the step observer against interval-hull, exact-expression and history-tracking oracles",
+  "PSO runs over swarm sizes 1-12, dimensions 1-5, the full coefficient ranges (including c1 = c2 = 0 for an exact inertia check), v_max from 0.001 to 10 domain widths, five objective kinds and 1-20 iterations are audited after every velocity update (clamp, exact move, unevaluated, interval hull with the stored inertia weight), after every inertia mapping (bit-exact linear interpolation at the loop's progress) and after every swarm update (personal best == minimum of that particle's harness-tracked evaluated history, global best == best personal best, one entry per particle).",
+  "Hook: step observer. The hull check has a 1e-9 relative tolerance.",
+  "DESIGN.md §6 C18")
